@@ -39,6 +39,7 @@ Blank ==
   /\ log = [t \in Topics |-> <<>>]
   /\ cur = [t \in Topics |-> 0]
   /\ lb  = [t \in Topics |-> 0]
+  /\ slack = [t \in Topics |-> 0]
   /\ rn  = [t \in Topics |-> 0]
   /\ clean = [t \in Topics |-> TRUE]
   /\ countKnown = [t \in Topics |-> TRUE]
@@ -55,6 +56,7 @@ BlankNext ==
   /\ log' = [t \in Topics |-> <<>>]
   /\ cur' = [t \in Topics |-> 0]
   /\ lb'  = [t \in Topics |-> 0]
+  /\ slack' = [t \in Topics |-> 0]
   /\ rn'  = [t \in Topics |-> 0]
   /\ clean' = [t \in Topics |-> TRUE]
   /\ countKnown' = [t \in Topics |-> TRUE]
@@ -82,17 +84,17 @@ TBatch ==
 (* (reported as res = "err"/"panic"/"foreign") matches no action: the group is rejected.  *)
 TRead ==
   /\ Ev.ev = "read" /\ Ev.st = "ok"
-  /\ ReadNext(Ev.t, Ev.ckpt, Pairs(Ev.res))
+  /\ \E c \in Cands(Ev.t) : ReadNext(Ev.t, Ev.ckpt, c, Pairs(Ev.res))
 
 TBRead ==
   /\ Ev.ev = "bread" /\ Ev.st = "ok"
   /\ IF Ev.off < 0
-     THEN BatchRead(Ev.t, Ev.budget, Ev.ckpt, Pairs(Ev.res))
+     THEN \E c \in Cands(Ev.t) : BatchRead(Ev.t, Ev.budget, Ev.ckpt, c, Pairs(Ev.res))
      ELSE OffsetRead(Ev.t, Ev.budget, Ev.ckpt, Ev.headof, Pairs(Ev.res))
 
 TCounts ==
   /\ Ev.ev = "counts"
-  /\ \A t \in DOMAIN Ev.n : countKnown[t] => Ev.n[t] = Len(log[t]) - cur[t]
+  /\ \A t \in DOMAIN Ev.n : (countKnown[t] /\ slack[t] = 0) => Ev.n[t] = Len(log[t]) - cur[t]
   /\ UNCHANGED avars
 
 TIsClean ==
@@ -103,11 +105,9 @@ TMark ==
   /\ Ev.ev = "mark"
   /\ Mark(Ev.t, Ev.v)
 
-CursorFuns(S) == {f \in [Topics -> UNION {S[t] : t \in Topics}] : \A t \in Topics : f[t] \in S[t]}
-
 TReopen ==
   /\ Ev.ev = "reopen" /\ Ev.res = "ok"
-  /\ \E c \in CursorFuns(RestartChoices(Ev.i)) : RestartTo(Ev.i, c)
+  /\ Restart(Ev.i)
 
 Inflight(x) ==
   IF Len(x) = 0 THEN <<>>
@@ -117,10 +117,7 @@ Inflight(x) ==
 TCrash ==
   /\ Ev.ev = "crash" /\ Ev.res = "ok"
   /\ LET inf == Inflight(Ev.inflight) IN
-     \E kept \in KeptChoices(inf, BatchAtomic) :
-       LET newLen(t) == Len(log[t]) + (IF kept # <<>> /\ inf[2] = t THEN Len(kept) ELSE 0)
-           S == [t \in Topics |-> CrashCursorChoices(Ev.i, t, inf, newLen(t))]
-       IN \E c \in CursorFuns(S) : Crash(Ev.i, inf, BatchAtomic, kept, c)
+     \E kept \in KeptChoices(inf, BatchAtomic) : Crash(Ev.i, inf, BatchAtomic, kept)
 
 TReclaim ==
   /\ Ev.ev = "reclaim"
@@ -160,7 +157,7 @@ TSpec == TInit /\ [][TNext]_tvars
 Report == ok => PrintT(<<"AT", l>>)
 
 (* Diagnostic variant: also prints the contract state (used on a single rejected group).   *)
-ReportState == ok => PrintT(<<"ST", l, ToJson([log |-> log, cur |-> cur, lb |-> lb, countKnown |-> countKnown,
+ReportState == ok => PrintT(<<"ST", l, ToJson([log |-> log, cur |-> cur, lb |-> lb, slack |-> slack, countKnown |-> countKnown,
                                               clean |-> clean, lastPeek |-> lastPeek, maxBatch |-> maxBatch,
                                               mode |-> mode, pe |-> pe])>>)
 =========================================================================================
